@@ -131,13 +131,13 @@ class Runner:
         n = int(os.environ.get('VERIF_WORLDS', n))
         budget = float(os.environ.get('VERIF_BUDGET', budget))
         batch = self.cfg['batch']
-        jobs = [(a, min(batch, n - a)) for a in range(0, n, batch)]
+        njobs = (n + batch - 1) // batch
         deadline = self.t0 + budget
         running, results, races, errors = [], [], [], []
         ji = 0
-        while ji < len(jobs) or running:
-            while ji < len(jobs) and len(running) < NCPU and time.time() < deadline:
-                a, cnt = jobs[ji]; ji += 1
+        while ji < njobs or running:
+            while ji < njobs and len(running) < NCPU and time.time() < deadline:
+                a, cnt = ji * batch, min(batch, n - ji * batch); ji += 1
                 out = '%s/b%d.json' % (self.tmp, a)
                 err = open('%s/b%d.err' % (self.tmp, a), 'w')
                 left = max(1.0, deadline - time.time())
@@ -147,8 +147,8 @@ class Runner:
                     cmd.append('-begin')
                 p = subprocess.Popen(cmd, stdout=subprocess.DEVNULL, stderr=err, env=self.env())
                 running.append((p, a, cnt, out, err, time.time()))
-            if ji < len(jobs) and time.time() >= deadline:
-                ji = len(jobs)  # budget used up: remaining batches are not started
+            if ji < njobs and time.time() >= deadline:
+                ji = njobs  # budget used up: remaining batches are not started
             still = []
             for item in running:
                 p, a, cnt, out, err, st = item
@@ -172,7 +172,7 @@ class Runner:
                 else:
                     errors.append('batch %d: exit %d: %s' % (a, rc, etxt[-2000:]))
             running = still
-            time.sleep(0.02)
+            time.sleep(0.004 if batch <= 4 else 0.02)
         return results, races, errors
 
     def gen_world(self, idx):
